@@ -274,6 +274,33 @@ def run(ck: Check, repo: Repo) -> None:
     _poll(ck, repo, cls)
     _worker(ck, repo)
     _close(ck, repo, cls)
+    from ._c13_r3b import run_r3b
+    run_r3b(ck, repo)
+
+
+def _queue_fields(cfg: CFG, n: Node, e: ast.AST, path: Tuple[int, ...] = (), seen: Optional[Set] = None) -> Set[str]:
+    """Where the value of expression e at node n comes from: "item[i]..." = field i of a `self.error_queue.get()` result, "none" = the constant
+    None, "?" = anything else.  Names are followed through their reaching definitions, tuples through packing and unpacking."""
+    seen = set() if seen is None else seen
+    key = (n.id, ast.dump(e), path)
+    if key in seen:
+        return set()
+    seen.add(key)
+    if isinstance(e, ast.Name):
+        out: Set[str] = set()
+        for d in cfg.defs_reaching(n, e.id):
+            v = cfg.value_of_def(d, e.id)
+            out |= {"?"} if v is None else _queue_fields(cfg, d, v, path, seen)
+        return out
+    if isinstance(e, ast.Subscript) and isinstance(const_value(e.slice), int) and not isinstance(const_value(e.slice), bool):
+        return _queue_fields(cfg, n, e.value, (const_value(e.slice),) + path, seen)
+    if isinstance(e, (ast.Tuple, ast.List)) and path and not any(isinstance(x, ast.Starred) for x in e.elts):
+        return _queue_fields(cfg, n, e.elts[path[0]], path[1:], seen) if -len(e.elts) <= path[0] < len(e.elts) else {"?"}
+    if isinstance(e, ast.Call) and call_name(e) == "self.error_queue.get":
+        return {"item" + "".join(f"[{i}]" for i in path)}
+    if isinstance(e, ast.Constant) and e.value is None:
+        return {"none"}
+    return {"?"}
 
 
 def _raise_if_errors(ck: Check, repo: Repo, fn: Fn) -> bool:
@@ -286,13 +313,9 @@ def _raise_if_errors(ck: Check, repo: Repo, fn: Fn) -> bool:
         e = r.ast.exc
         okr = isinstance(e, ast.Call) and isinstance(e.func, ast.Name) and len(e.args) == 1
         if okr:
-            # both names come from the same queue item
-            gets = [n for n in cfg.live_nodes() if n.kind == "stmt" and isinstance(n.ast, ast.Assign) and isinstance(n.ast.value, ast.Call)
-                    and call_name(n.ast.value) == "self.error_queue.get" and isinstance(n.ast.targets[0], ast.Tuple)]
-            okr = bool(gets)
-            if okr:
-                names = [dotted(t) for t in gets[0].ast.targets[0].elts]
-                okr = len(names) == 4 and e.func.id == names[1] and dotted(e.args[0]) == names[2]
+            # callee and argument are fields 1 and 2 of an item taken from the error queue, followed through the definitions that reach the raise
+            # (unpacked in place, or carried out of the drain loop in a tuple / two locals; a `None` initialiser in front of the loop is not a source)
+            okr = _queue_fields(cfg, r, e.func) - {"none"} == {"item[1]"} and _queue_fields(cfg, r, e.args[0]) - {"none"} == {"item[2]"}
         ck.ob("C13.3", fn, r.ast, okr, "the parent re-raises the worker's exception type with the worker's exception value (queue item fields 1 and 2)")
     # early return when no error; count = num_envs - sum(successes)
     src = ast.unparse(fn.node)
@@ -303,6 +326,127 @@ def _raise_if_errors(ck: Check, repo: Repo, fn: Fn) -> bool:
     okc = bool(closes) and bool(nulls) and ast.unparse(closes[0].func.value) == ast.unparse(nulls[0].targets[0]) and closes[0].lineno < nulls[0].lineno
     ck.ob("C13.3", fn, closes[0] if closes else fn.node, okc, "the failed worker's pipe is closed and then set to None (indexed by the reported worker index)")
     return ok
+
+
+class _Deref(Exception):
+    """the evaluated turn uses a pipe slot that is None"""
+
+
+class _PipeTurn:
+    """One turn of a loop over the parent pipes, evaluated for a pipe in a given condition.  `facts` fixes some of: "none" (the slot is None),
+    "closed" (`<pipe>.closed`), "poll" (the answer of `<pipe>.poll(...)`); everything else is unknown and both outcomes are followed.  Tests are
+    evaluated with Python's short-circuit rules, locals assigned in the turn carry their truth value.  Result: `outcomes` (subset of
+    "return True" / "return False" / "return ?" / "next" (the loop goes on to the next pipe) / "break" / "raise" / "?"), `events` ("poll": the
+    pipe was polled) and `unbounded` (a poll without a time limit: no argument, or the constant None)."""
+
+    def __init__(self, pipes: Set[str], facts: Dict[str, bool]):
+        self.pipes, self.facts = pipes, facts
+        self.outcomes: Set[str] = set()
+        self.events: Set[str] = set()
+        self.unbounded = False
+
+    def _is_pipe(self, e: ast.AST) -> bool:
+        return isinstance(e, ast.Name) and e.id in self.pipes
+
+    def ev(self, e: Optional[ast.AST], env: Dict[str, Optional[bool]]) -> Optional[bool]:
+        if e is None:
+            return None
+        if isinstance(e, ast.Constant):
+            return bool(e.value)
+        if isinstance(e, ast.Name):
+            if self._is_pipe(e):
+                return None if self.facts.get("none") is None else not self.facts["none"]
+            return env.get(e.id)
+        if isinstance(e, ast.UnaryOp) and isinstance(e.op, ast.Not):
+            v = self.ev(e.operand, env)
+            return None if v is None else not v
+        if isinstance(e, ast.BoolOp):
+            stop = isinstance(e.op, ast.Or)
+            res: Optional[bool] = not stop
+            for x in e.values:
+                v = self.ev(x, env)
+                if v is stop:
+                    return stop
+                if v is None:
+                    res = None
+            return res
+        if isinstance(e, ast.IfExp):
+            t = self.ev(e.test, env)
+            if t is None:
+                a, b = self.ev(e.body, env), self.ev(e.orelse, env)
+                return a if a == b else None
+            return self.ev(e.body if t else e.orelse, env)
+        if isinstance(e, ast.Compare) and len(e.ops) == 1 and isinstance(e.ops[0], (ast.Is, ast.IsNot, ast.Eq, ast.NotEq)):
+            l, r = e.left, e.comparators[0]
+            for a, b in ((l, r), (r, l)):
+                if self._is_pipe(a) and isinstance(b, ast.Constant) and b.value is None:
+                    none = self.facts.get("none")
+                    return None if none is None else (none if isinstance(e.ops[0], (ast.Is, ast.Eq)) else not none)
+        if isinstance(e, ast.Attribute) and self._is_pipe(e.value):
+            if self.facts.get("none"):
+                raise _Deref()
+            return self.facts.get("closed") if e.attr == "closed" else None
+        if isinstance(e, ast.Call) and isinstance(e.func, ast.Attribute) and self._is_pipe(e.func.value):
+            if self.facts.get("none"):
+                raise _Deref()
+            for a in list(e.args) + [k.value for k in e.keywords]:
+                self.ev(a, env)
+            if e.func.attr == "poll":
+                self.events.add("poll")
+                lim = get_kw(e, "timeout", 0)
+                if lim is None or (isinstance(lim, ast.Constant) and lim.value is None):
+                    self.unbounded = True
+                return self.facts.get("poll")
+            return None
+        for x in ast.iter_child_nodes(e):
+            if isinstance(x, ast.expr):
+                self.ev(x, env)
+        return None
+
+    def _stmts(self, stmts: List[ast.stmt], env: Dict[str, Optional[bool]]) -> Set[str]:
+        for i, s in enumerate(stmts):
+            if isinstance(s, ast.If):
+                v = self.ev(s.test, env)
+                out: Set[str] = set()
+                for br in ([s.body] if v is True else [s.orelse] if v is False else [s.body, s.orelse]):
+                    e2 = dict(env)
+                    try:
+                        o = self._stmts(br, e2)
+                        if "next" in o:
+                            o = (o - {"next"}) | self._stmts(stmts[i + 1:], e2)
+                    except _Deref:
+                        o = {"raise"}
+                    out |= o
+                return out
+            if isinstance(s, ast.Return):
+                v = self.ev(s.value, env) if s.value is not None else False
+                return {"return ?" if v is None else f"return {v}"}
+            if isinstance(s, ast.Raise):
+                return {"raise"}
+            if isinstance(s, ast.Continue):
+                return {"next"}
+            if isinstance(s, ast.Break):
+                return {"break"}
+            if isinstance(s, (ast.Assign, ast.AnnAssign)) and getattr(s, "value", None) is not None:
+                v = self.ev(s.value, env)
+                for t in (s.targets if isinstance(s, ast.Assign) else [s.target]):
+                    for x in ast.walk(t):
+                        if isinstance(x, ast.Name):
+                            env[x.id] = v if isinstance(t, ast.Name) else None
+            elif isinstance(s, (ast.Expr, ast.AugAssign, ast.Assert, ast.Pass)):
+                for x in ast.iter_child_nodes(s):
+                    if isinstance(x, ast.expr):
+                        self.ev(x, env)
+            else:
+                return {"?"}  # a nested loop / try / with in the turn: not evaluated
+        return {"next"}
+
+    def run(self, body: List[ast.stmt]) -> "_PipeTurn":
+        try:
+            self.outcomes = self._stmts(body, {})
+        except _Deref:
+            self.outcomes = {"raise"}
+        return self
 
 
 def _poll(ck: Check, repo: Repo, cls: Cls) -> None:
@@ -320,8 +464,18 @@ def _poll(ck: Check, repo: Repo, cls: Cls) -> None:
         body = ast.Module(body=loop.body, type_ignores=[])
         # the pipe is the loop's element variable (computed); $delta / $end_time are whatever the budget locals are called
         pv = sorted(_elem_vars(ast.For(target=loop.target, iter=loop.iter, body=[], orelse=[]), "parent_pipes", scope=fn.node))
-        ck.ob("C13.4", fn, loop, any(has(body, f'if {v} is None:\n    return False', env_key=loop) for v in pv), "a missing pipe (failed worker) makes the poll fail instead of raising")
-        ck.ob("C13.4", fn, loop, any(has(body, f'{v}.closed or not {v}.poll($delta)', env_key=loop) for v in pv) and has(body, 'return False', env_key=loop), "a closed or silent pipe makes the poll fail")
+        # what one turn of the loop does for a pipe in a given condition, whichever way the tests are grouped, ordered or named: the turn is
+        # evaluated on the three facts about the pipe (missing / closed / answer of poll) with short-circuit semantics
+        missing = _PipeTurn(set(pv), {"none": True}).run(loop.body)
+        closed = _PipeTurn(set(pv), {"none": False, "closed": True}).run(loop.body)
+        silent = _PipeTurn(set(pv), {"none": False, "closed": False, "poll": False}).run(loop.body)
+        ck.ob("C13.4", fn, loop, missing.outcomes == {"return False"}, "a missing pipe (failed worker) makes the poll fail instead of raising",
+              detail="" if missing.outcomes == {"return False"} else f"with the pipe slot None one turn of the loop ends in {sorted(missing.outcomes)}"
+                     + (" (the None slot is dereferenced: AttributeError instead of a timeout)" if "raise" in missing.outcomes else ""))
+        ok_cs = closed.outcomes == {"return False"} and "poll" not in closed.events and silent.outcomes == {"return False"} and "poll" in silent.events and not silent.unbounded
+        ck.ob("C13.4", fn, loop, ok_cs, "a closed or silent pipe makes the poll fail",
+              detail="" if ok_cs else f"closed pipe: {sorted(closed.outcomes)}{' after polling it' if 'poll' in closed.events else ''}; open pipe whose poll(<remaining time>) "
+                                      f"is False: {sorted(silent.outcomes)}{' (poll without a time limit)' if silent.unbounded else ''}")
         ck.ob("C13.4", fn, loop, has(body, 'max($end_time - time.perf_counter(), 0)', env_key=loop), "the remaining time budget is shared by all pipes (never negative)")
 
 
@@ -370,6 +524,63 @@ def _worker(ck: Check, repo: Repo) -> None:
           construct="unknown command branch")
 
 
+def _is_wait_method(cfg: CFG, n: Optional[Node], e: ast.AST, seen: Optional[Set] = None) -> bool:
+    """e (evaluated at node n) denotes one of the environment's own *_wait methods: `self.<family>_wait`, `getattr(self, <name ending in _wait>)`,
+    an entry of a table / a choice whose alternatives all are, or a local every reaching definition of which is."""
+    seen = set() if seen is None else seen
+    if n is None or (n.id, id(e)) in seen:
+        return False
+    seen.add((n.id, id(e)))
+    if isinstance(e, ast.Attribute):
+        return dotted(e.value) == "self" and e.attr in WAIT
+    if isinstance(e, ast.Call) and call_name(e) == "getattr":
+        return len(e.args) >= 2 and dotted(e.args[0]) == "self" and "_wait" in ast.unparse(e.args[1])
+    if isinstance(e, ast.IfExp):
+        return _is_wait_method(cfg, n, e.body, seen) and _is_wait_method(cfg, n, e.orelse, seen)
+    if isinstance(e, ast.Dict):
+        return bool(e.values) and all(k is not None and _is_wait_method(cfg, n, v, seen) for k, v in zip(e.keys, e.values))
+    if isinstance(e, (ast.Tuple, ast.List)):
+        return bool(e.elts) and all(_is_wait_method(cfg, n, v, seen) for v in e.elts)
+    if isinstance(e, ast.Subscript):
+        return _is_wait_method(cfg, n, e.value, seen)
+    if isinstance(e, ast.Name):
+        ds = cfg.defs_reaching(n, e.id)
+        return bool(ds) and all(cfg.value_of_def(d, e.id) is not None and _is_wait_method(cfg, d, cfg.value_of_def(d, e.id), seen) for d in ds)
+    return False
+
+
+def _is_callers_timeout(cfg: CFG, n: Optional[Node], e: Optional[ast.AST], seen: Optional[Set] = None) -> bool:
+    """e (evaluated at node n) is the `timeout` parameter of the function: the parameter itself on at least one path, on the others the constant 0 of
+    the `terminate` choice (checked on its own) — through copies, conditional expressions and conditional assignments."""
+    def walk(n: Node, e: ast.AST, seen: Set) -> Optional[bool]:
+        # None = not the timeout; False = the constant 0 only; True = reaches the parameter
+        if isinstance(e, ast.Constant):
+            return False if (e.value == 0 and type(e.value) is int) else None
+        if isinstance(e, ast.IfExp):
+            a, b = walk(n, e.body, seen), walk(n, e.orelse, seen)
+            return None if a is None or b is None else (a or b)
+        if not isinstance(e, ast.Name):
+            return None
+        if (n.id, e.id) in seen:
+            return False
+        seen.add((n.id, e.id))
+        res = False
+        ds = cfg.defs_reaching(n, e.id)
+        if not ds:
+            return None
+        for d in ds:
+            if d.kind == "entry":
+                r: Optional[bool] = True if e.id == "timeout" else None
+            else:
+                v = cfg.value_of_def(d, e.id)
+                r = None if v is None else walk(d, v, seen)
+            if r is None:
+                return None
+            res = res or r
+        return res
+    return n is not None and e is not None and walk(n, e, set()) is True
+
+
 def _close(ck: Check, repo: Repo, cls: Cls) -> None:
     fn = cls.methods.get("close_extras")
     if fn is None:
@@ -394,12 +605,10 @@ def _close(ck: Check, repo: Repo, cls: Cls) -> None:
             hs = [h for h in t.handlers if h.type is not None and any(dotted(x) in accepted for x in (h.type.elts if isinstance(h.type, ast.Tuple) else [h.type]))]
             ck.note("C13.5_timeout_raised_by_waits", sorted(raised))
             ok = bool(hs) and any(isinstance(s, ast.Assign) and dotted(s.targets[0]) == "terminate" and const_value(s.value) is True for s in hs[0].body)
-            # the pending wait method: the local bound to getattr(self, f"..._wait") (or that getattr called in place)
-            def is_wait_getattr(v: Optional[ast.AST]) -> bool:
-                return isinstance(v, ast.Call) and call_name(v) == "getattr" and len(v.args) >= 2 and dotted(v.args[0]) == "self" and "_wait" in ast.unparse(v.args[1])
-            waits = {x.id for s in walk_no_nested(t) if isinstance(s, ast.Assign) and is_wait_getattr(s.value) for x in s.targets if isinstance(x, ast.Name)}
-            calls = [c for c in calls_in(t) if (isinstance(c.func, ast.Name) and c.func.id in waits) or is_wait_getattr(c.func)]
-            ck.ob("C13.5", fn, calls[0] if calls else t, bool(calls) and calls[0].args and dotted(calls[0].args[0]) == "timeout",
+            # the call of the pending wait method, however it is selected (by name through getattr, from a table keyed by the state, by a
+            # ladder of direct calls, through a local): every such call gets the `timeout` parameter of close_extras as its time limit
+            calls = [c for c in calls_in(t) if _is_wait_method(cfg, cfg.node_of(c), c.func)]
+            ck.ob("C13.5", fn, calls[0] if calls else t, bool(calls) and all(_is_callers_timeout(cfg, cfg.node_of(c), get_kw(c, "timeout", 0)) for c in calls),
                   "a pending call is awaited with the caller's timeout")
     ck.ob("C13.5", fn, tries[0] if tries else fn.node, ok, "a timeout while waiting for the pending call switches to terminate()")
     # (either spelling of the choice: conditional expression or if / else statement; the two locals are whatever they are called, but distinct)
@@ -462,6 +671,8 @@ def _close(ck: Check, repo: Repo, cls: Cls) -> None:
 
 _AV = "agilerl/vector/pz_async_vec_env.py"
 _PV = "agilerl/vector/pz_vec_env.py"
+_CLOSE_SRC = "    def close(self, **kwargs: Any) -> None:\n        \"\"\"\n        Clean up the environments' resources.\n        \"\"\"\n        if self.closed:\n            return\n\n        self.close_extras(**kwargs)"
+_REAP_SRC = "        for pipe in self.parent_pipes:\n            if pipe is not None:\n                pipe.close()\n        for process in self.processes:\n            process.join()"
 VARIANTS = [
     ("close-catches-builtin-timeout", _AV, "        except mp.TimeoutError:\n            terminate = True", "        except TimeoutError:\n            terminate = True", "fire", "C13.5"),
     ("step-wait-stops-at-first-failed-worker", _AV, "            if success:\n                for agent in self.agents:\n                    rewards[agent].append(env_step_return[0][agent])", "            if not success:\n                break\n            if success:\n                for agent in self.agents:\n                    rewards[agent].append(env_step_return[0][agent])", "fire", "C13.3"),
@@ -500,6 +711,39 @@ VARIANTS = [
      "        for conn in self.parent_pipes:\n            remaining = max(end_time - time.perf_counter(), 0)\n\n            if conn is None:\n                return False\n            if conn.closed or (not conn.poll(remaining)):\n                return False\n", "silent", None),
     ("close-locals-renamed-ok", _AV, "        for pipe in self.parent_pipes:\n            if pipe is not None:\n                pipe.close()\n        for process in self.processes:\n            process.join()",
      "        for conn in self.parent_pipes:\n            if conn is not None:\n                conn.close()\n        for worker in self.processes:\n            worker.join()", "silent", None),
+    # ---- C13.6: the options of close() reach close_extras
+    ("close-timeout-accepted-but-not-forwarded", _PV, _CLOSE_SRC, _CLOSE_SRC.replace("self, **kwargs: Any", "self, timeout: Optional[float] = None, terminate: bool = False").replace("(**kwargs)", "(terminate=terminate)"), "fire", "C13.6"),
+    ("close-timeout-forwarded-as-constant", _PV, _CLOSE_SRC, _CLOSE_SRC.replace("self, **kwargs: Any", "self, timeout: Optional[float] = None, terminate: bool = False").replace("(**kwargs)", "(timeout=None, terminate=terminate)"), "fire", "C13.6"),
+    ("close-options-swapped", _PV, _CLOSE_SRC, _CLOSE_SRC.replace("self, **kwargs: Any", "self, timeout: Optional[float] = None, terminate: bool = False").replace("(**kwargs)", "(terminate, timeout)"), "fire", "C13.6"),
+    ("close-kwargs-not-passed-on", _PV, "        self.close_extras(**kwargs)", "        self.close_extras()", "fire", "C13.6"),
+    ("close-explicit-options-forwarded-ok", _PV, _CLOSE_SRC, _CLOSE_SRC.replace("self, **kwargs: Any", "self, timeout: Optional[float] = None, terminate: bool = False").replace("(**kwargs)", "(timeout=timeout, terminate=terminate)"), "silent", None),
+    ("close-explicit-options-positional-ok", _PV, _CLOSE_SRC, _CLOSE_SRC.replace("self, **kwargs: Any", "self, timeout: Optional[float] = None, terminate: bool = False").replace("(**kwargs)", "(timeout, terminate)"), "silent", None),
+    ("close-one-option-named-rest-in-kwargs-ok", _PV, _CLOSE_SRC, _CLOSE_SRC.replace("self, **kwargs: Any", "self, terminate: bool = False, **kwargs: Any").replace("(**kwargs)", "(terminate=terminate, **kwargs)"), "silent", None),
+    ("close-kwargs-through-a-local-ok", _PV, "        self.close_extras(**kwargs)", "        options = dict(kwargs)\n        self.close_extras(**options)", "silent", None),
+    ("close-options-collected-in-a-dict-ok", _PV, _CLOSE_SRC, _CLOSE_SRC.replace("self, **kwargs: Any", "self, timeout: Optional[float] = None, terminate: bool = False").replace("        self.close_extras(**kwargs)", "        options = {\"timeout\": timeout, \"terminate\": terminate}\n        self.close_extras(**options)"), "silent", None),
+    # ---- C13.7: terminating / joining a worker does not depend on its pipe
+    ("close-join-only-workers-with-a-pipe", _AV, _REAP_SRC, "        for pipe, process in zip(self.parent_pipes, self.processes):\n            if pipe is not None:\n                pipe.close()\n                process.join()", "fire", "C13.7"),
+    ("close-join-skipped-by-continue", _AV, _REAP_SRC, "        for pipe, process in zip(self.parent_pipes, self.processes):\n            if pipe is None:\n                continue\n            pipe.close()\n            process.join()", "fire", "C13.7"),
+    ("close-join-indexed-pipe-test", _AV, "        for process in self.processes:\n            process.join()", "        for i, process in enumerate(self.processes):\n            if self.parent_pipes[i] is not None:\n                process.join()", "fire", "C13.7"),
+    ("close-terminate-only-workers-with-a-pipe", _AV, "            for process in self.processes:\n                if process.is_alive():\n                    process.terminate()",
+     "            for pipe, process in zip(self.parent_pipes, self.processes):\n                if pipe is not None and process.is_alive():\n                    process.terminate()", "fire", "C13.7"),
+    ("close-merged-loop-join-outside-the-pipe-test-ok", _AV, _REAP_SRC, "        for pipe, process in zip(self.parent_pipes, self.processes):\n            if pipe is not None:\n                pipe.close()\n            process.join()", "silent", None),
+    ("close-terminate-liveness-in-a-local-ok", _AV, "            for process in self.processes:\n                if process.is_alive():\n                    process.terminate()",
+     "            for worker in self.processes:\n                running = worker.is_alive()\n                if not running:\n                    continue\n                worker.terminate()", "silent", None),
+    # ---- the benign refactoring of round 3, one piece at a time
+    ("poll-missing-and-closed-in-one-test-ok", _AV, "            delta = max(end_time - time.perf_counter(), 0)\n\n            if pipe is None:\n                return False\n            if pipe.closed or (not pipe.poll(delta)):\n                return False\n",
+     "            if pipe is None or pipe.closed:\n                return False\n            remaining = max(end_time - time.perf_counter(), 0)\n            if not pipe.poll(remaining):\n                return False\n", "silent", None),
+    ("poll-closed-tested-before-missing", _AV, "            if pipe is None:\n                return False\n            if pipe.closed or (not pipe.poll(delta)):\n                return False\n",
+     "            if pipe.closed or pipe is None:\n                return False\n            if not pipe.poll(delta):\n                return False\n", "fire", "C13.4"),
+    ("poll-closed-pipe-is-polled", _AV, "            if pipe.closed or (not pipe.poll(delta)):\n                return False\n", "            if not pipe.poll(delta):\n                return False\n", "fire", "C13.4"),
+    ("poll-without-time-limit", _AV, "            if pipe.closed or (not pipe.poll(delta)):\n                return False\n", "            if pipe.closed or (not pipe.poll(None)):\n                return False\n", "fire", "C13.4"),
+    ("close-wait-from-a-table-ok", _AV, "                function = getattr(self, f\"{self._state.value}_wait\")\n                function(timeout)",
+     "                pending_wait = {\n                    AsyncState.WAITING_RESET: self.reset_wait,\n                    AsyncState.WAITING_STEP: self.step_wait,\n                    AsyncState.WAITING_CALL: self.call_wait,\n                }[self._state]\n                pending_wait(timeout)", "silent", None),
+    ("close-wait-from-a-table-without-timeout", _AV, "                function = getattr(self, f\"{self._state.value}_wait\")\n                function(timeout)",
+     "                pending_wait = {\n                    AsyncState.WAITING_RESET: self.reset_wait,\n                    AsyncState.WAITING_STEP: self.step_wait,\n                    AsyncState.WAITING_CALL: self.call_wait,\n                }[self._state]\n                pending_wait()", "fire", "C13.5"),
+    ("close-wait-timeout-through-a-local-ok", _AV, "                function(timeout)", "                limit = timeout\n                function(timeout=limit)", "silent", None),
+    ("raise-hoisted-out-of-the-drain-loop-ok", _AV, "        for i in range(num_errors):\n            index, exctype, value, trace = self.error_queue.get()\n", "        last = None\n        for i in range(num_errors):\n            index, kind, payload, trace = self.error_queue.get()\n            last = (kind, payload)\n            exctype, value = last\n", "silent", None),
+    ("raise-value-and-trace-exchanged", _AV, "                raise exctype(value)", "                raise exctype(trace)", "fire", "C13.3"),
 ]
 
 
